@@ -20,11 +20,12 @@ type Fault struct {
 
 // Banner describes one asynchronous IOS reload banner.
 type Banner struct {
-	Ord   int    `json:"ord"`   // ordinal of received line at which the banner is shown
-	Form  string `json:"form"`  // before-own-prompt | inside@N | after-no-prompt | after-own-prompt | after-prompt
-	Kind  string `json:"kind"`  // 2:00 | 1:00 | aborted
-	Chunk string `json:"chunk"` // whole | lines | prompt-delayed
-	HH    bool   `json:"hh,omitempty"` // time printed with a two-digit hour field (00:01:00)
+	Ord   int    `json:"ord"`           // ordinal of received line at which the banner is shown
+	Form  string `json:"form"`          // before-own-prompt | inside@N | after-no-prompt | after-own-prompt | after-prompt
+	Kind  string `json:"kind"`          // 2:00 | 1:00 | aborted
+	Chunk string `json:"chunk"`         // whole | lines | prompt-delayed
+	Cmd   string `json:"cmd,omitempty"` // if set: shown at this command instead of at line Ord
+	HH    bool   `json:"hh,omitempty"`  // time printed with a two-digit hour field (00:01:00)
 }
 
 // Park lets the simulator block when line Ord arrives until File is
@@ -35,32 +36,33 @@ type Park struct {
 }
 
 type Spec struct {
-	Type        string   `json:"type"` // asa | ios | linux
-	Hostname    string   `json:"hostname"`
-	HostReply   string   `json:"host_reply,omitempty"` // reply to 'hostname -s' / 'show hostname' if it is not the name (error text, empty line)
-	Password    string   `json:"password"`
-	NeedEnable  bool     `json:"need_enable"` // login ends in user mode, enable required
-	EnablePass  bool     `json:"enable_pass"` // enable asks for password
-	PreBanner   string   `json:"pre_banner"`  // shown before password prompt
-	PostBanner  string   `json:"post_banner"` // shown after login
-	Issue       string   `json:"issue"`       // content of /etc/issue (linux)
-	Config      string   `json:"config"`      // running config (asa, ios)
-	Routes      string   `json:"routes"`      // output of 'ip route show' (linux)
-	IPTables    string   `json:"iptables"`    // output of 'iptables-save' (linux)
-	Events      string   `json:"events"`      // event log file (O_APPEND)
-	Session     string   `json:"session"`     // session label
-	ScpDir      string   `json:"scp_dir"`     // where hook 1 drops files (linux)
-	Faults      []Fault  `json:"faults"`
-	Banners     []Banner `json:"banners"`
-	Park        *Park    `json:"park,omitempty"`
-	ReplyDelay  int      `json:"reply_delay_ms"` // delay before each reply
-	LingerMs    int      `json:"linger_ms"`      // like a hung ssh client: ignore SIGHUP and outlive the tool by this time
-	Modified    bool     `json:"modified"`       // IOS: config differs from startup (Save? dialogue)
-	WriteMem    string   `json:"write_mem"`      // ok | nvram-confirm | busy-once | too-large | no-ok
-	UseModel    bool     `json:"use_model"`      // execute commands on the device model
-	PagerOn     bool     `json:"pager_on"`       // ASA: 'sh pager' reports pager lines 24
-	Width80     bool     `json:"width_80"`       // ASA: 'sh term' reports width 80
-	NoEndMarker bool     `json:"no_end_marker"`
+	Type          string   `json:"type"` // asa | ios | linux
+	Hostname      string   `json:"hostname"`
+	HostReply     string   `json:"host_reply,omitempty"` // reply to 'hostname -s' / 'show hostname' if it is not the name (error text, empty line)
+	Password      string   `json:"password"`
+	NeedEnable    bool     `json:"need_enable"` // login ends in user mode, enable required
+	EnablePass    bool     `json:"enable_pass"` // enable asks for password
+	PreBanner     string   `json:"pre_banner"`  // shown before password prompt
+	PostBanner    string   `json:"post_banner"` // shown after login
+	Issue         string   `json:"issue"`       // content of /etc/issue (linux)
+	Config        string   `json:"config"`      // running config (asa, ios)
+	Routes        string   `json:"routes"`      // output of 'ip route show' (linux)
+	IPTables      string   `json:"iptables"`    // output of 'iptables-save' (linux)
+	Events        string   `json:"events"`      // event log file (O_APPEND)
+	Session       string   `json:"session"`     // session label
+	ScpDir        string   `json:"scp_dir"`     // where hook 1 drops files (linux)
+	Faults        []Fault  `json:"faults"`
+	Banners       []Banner `json:"banners"`
+	Park          *Park    `json:"park,omitempty"`
+	ReplyDelay    int      `json:"reply_delay_ms"`           // delay before each reply
+	LingerMs      int      `json:"linger_ms"`                // like a hung ssh client: ignore SIGHUP and outlive the tool by this time
+	ReloadPending bool     `json:"reload_pending,omitempty"` // IOS: a reload scheduled by somebody else is pending at login
+	Modified      bool     `json:"modified"`                 // IOS: config differs from startup (Save? dialogue)
+	WriteMem      string   `json:"write_mem"`                // ok | nvram-confirm | busy-once | too-large | no-ok
+	UseModel      bool     `json:"use_model"`                // execute commands on the device model
+	PagerOn       bool     `json:"pager_on"`                 // ASA: 'sh pager' reports pager lines 24
+	Width80       bool     `json:"width_80"`                 // ASA: 'sh term' reports width 80
+	NoEndMarker   bool     `json:"no_end_marker"`
 }
 
 // Event is one record of the simulator log.
